@@ -386,6 +386,9 @@ def accessor_table(u, fn):
             return None
         b = u.bodies[cands[0]]
     e = sym.expr_local(b, 0)
+    if e[0] == "call" and e[1].split("::")[-1] == "is_some_and" and len(e[2]) == 2:
+        # `opt.is_some_and(f)` == `opt.map(f).unwrap_or(false)`
+        e = ("call", "std::option::Option::unwrap_or", (("call", "std::option::Option::map", (e[2][0], e[2][1]), "std::option::Option::map", 0), ("const", 0, "bool")), "std::option::Option::unwrap_or", 0)
     if not (e[0] == "call" and e[1].split("::")[-1] == "unwrap_or" and len(e[2]) == 2):
         return None
     inner = e[2][0]
